@@ -3541,6 +3541,10 @@ def operator_pow(a, b):
     ):
 
         def operator_pow_impl(a, b):
+            # literals are not passed as such to this overload: decide at run time,
+            # as VectorObject.__pow__ does
+            if b == 2:
+                return numpy.square(a)
             return abs(a) ** b
 
         return operator_pow_impl
